@@ -1433,11 +1433,19 @@ func (c *Client) sendSingleMsg(client *smtp.Client, message *Msg) error {
 	}
 	writer, err := client.Data()
 	if err != nil {
-		return &SendError{
+		retError := &SendError{
 			Reason: ErrSMTPData, errlist: []error{err}, isTemp: isTempError(err),
 			affectedMsg: message, errcode: errorCode(err),
 			enhancedStatusCode: enhancedStatusCode(err, escSupport),
 		}
+		// MAIL and RCPT have been accepted, the transaction is still open on the server.
+		// Abandon it, otherwise the MAIL command of the next message would be nested.
+		if resetSendErr := client.Reset(); resetSendErr != nil {
+			retError.errlist = append(retError.errlist, resetSendErr)
+			// the state of the transaction on the server is unknown, do not reuse the connection
+			_ = client.Close()
+		}
+		return retError
 	}
 	_, err = message.WriteTo(writer)
 	if err != nil {
